@@ -319,7 +319,7 @@ fn guard_key<F: FnOnce() -> String + std::panic::UnwindSafe>(f: F) -> String {
       } else {
         "panic".to_string()
       };
-      format!("PANIC:{}", hex(msg.as_bytes()))
+      format!("PANIC:{}", hex(format!("{} @ {}", msg, crate::last_panic_location()).as_bytes()))
     }
   }
 }
@@ -360,7 +360,7 @@ pub fn tree_case(line: &str) -> String {
         out.push(format!("g{}={}", tag, g));
       }
       Err(_) => {
-        out.push(format!("e{}=PANIC", tag));
+        out.push(format!("e{}=PANIC:{}", tag, hex(crate::last_panic_location().as_bytes())));
         out.push(format!("g{}=PANIC", tag));
       }
     }
